@@ -20,6 +20,7 @@ Property theorems about `FdtdxModel/C35.lean` (every pole, every time step, ever
                            5θ⁴/48 and γdt·|θ|³/6
   C35_response_relative_error  (Lorentz/Drude, b = 0) relative error of the recurrence response against the declared
                            model ≤ θ²B/(m - θ²B) with B = 5/48 + (γ/ω)/6, m = |(ω0/ω)² - 1 - iγ/ω|, θ = ω dt ≤ 1
+  C35_analytic_clauses     the conjunction of the clauses over ℝ/ℂ (one name for the axiom audit)
 -/
 import FdtdxLemmas.C35
 import Mathlib.Algebra.Order.Field.Basic
@@ -326,15 +327,115 @@ theorem C35_resp_denominator_error (w2 gdt θ : ℝ) (hθ : |θ| ≤ 1) (hg : 0 
 
 end error
 
+/-! ### the convergence clause: relative error of the recurrence response, O((ω dt)²) with explicit constant -/
+section relative_error
+open Complex
+
+/-- C35 (second clause): for a Lorentz/Drude pole (`b = 0`), `θ = ω dt ≤ 1`, `B = 5/48 + (γ/ω)/6`,
+`m = |(ω0/ω)² - 1 - iγ/ω|` and `θ²B < m`:  `|χ_d - χ| ≤ θ²B/(m - θ²B) · |χ|`, where `χ_d` is the frequency response
+of the stored recurrence and `χ` the declared pole model. For fixed physical parameters the factor is `O((ω dt)²)`. -/
+theorem C35_response_relative_error (w0 g K dt ω : ℝ) (hω : 0 < ω) (hdt : 0 < dt) (hg : 0 ≤ g)
+    (hθ : ω * dt ≤ 1)
+    (hm : (ω * dt) ^ 2 * (5 / 48 + g / ω / 6) < ‖(((w0 / ω) ^ 2 - 1 : ℝ) : ℂ) - I * ((g / ω : ℝ) : ℂ)‖) :
+    ‖toC (resp (coef ⟨w0, g, K, 0⟩ dt) (Real.cos (ω * dt)) (Real.sin (ω * dt))) - toC (chiDeclared ⟨w0, g, K, 0⟩ ω)‖
+      ≤ (ω * dt) ^ 2 * (5 / 48 + g / ω / 6)
+          / (‖(((w0 / ω) ^ 2 - 1 : ℝ) : ℂ) - I * ((g / ω : ℝ) : ℂ)‖ - (ω * dt) ^ 2 * (5 / 48 + g / ω / 6))
+        * ‖toC (chiDeclared ⟨w0, g, K, 0⟩ ω)‖ := by
+  set θ := ω * dt with hθd
+  set B := 5 / 48 + g / ω / 6 with hB
+  set d : ℂ := (((w0 / ω) ^ 2 - 1 : ℝ) : ℂ) - I * ((g / ω : ℝ) : ℂ) with hd
+  have hθ0 : 0 < θ := mul_pos hω hdt
+  have hD : 1 + (⟨w0, g, K, 0⟩ : Uni ℝ).g * dt / 2 ≠ 0 := by
+    have : 0 ≤ g * dt := mul_nonneg hg hdt.le
+    simp only; linarith
+  -- the two denominators
+  set Dd : ℂ := toC (w0 * w0 * (dt * dt) - 2 * (1 - Real.cos θ), -(g * dt * Real.sin θ)) with hDd
+  set De : ℂ := toC (w0 * w0 * (dt * dt) - θ ^ 2, -(g * dt * θ)) with hDe
+  have hχd : toC (resp (coef ⟨w0, g, K, 0⟩ dt) (Real.cos θ) (Real.sin θ)) = ((K * (dt * dt) : ℝ) : ℂ) / Dd := by
+    rw [C35_resp_denominator _ dt _ _ hD, toC_cdiv]
+    congr 1
+    apply Complex.ext <;> simp [toC]
+  have hχe : toC (chiDeclared ⟨w0, g, K, 0⟩ ω) = ((K * (dt * dt) : ℝ) : ℂ) / De := by
+    have hs := cdiv_scale (dt * dt) K (-(ω * 0)) (w0 * w0 - ω * ω) (-(g * ω)) (mul_ne_zero hdt.ne' hdt.ne')
+    simp only [chiDeclared]
+    rw [← hs, toC_cdiv]
+    congr 1
+    · apply Complex.ext <;> simp [toC] <;> ring
+    · rw [hDe]; apply Complex.ext <;> simp [toC, hθd] <;> ring
+  have hωc : (ω : ℂ) ≠ 0 := by exact_mod_cast hω.ne'
+  have hDe_eq : De = ((θ ^ 2 : ℝ) : ℂ) * d := by
+    rw [hDe, toC_mk, hd, hθd]
+    push_cast
+    field_simp
+    ring
+  have hnDe : ‖De‖ = θ ^ 2 * ‖d‖ := by
+    rw [hDe_eq, norm_mul, Complex.norm_real, Real.norm_of_nonneg (by positivity)]
+  have hΔ : ‖Dd - De‖ ≤ θ ^ 4 * B := by
+    have hb := C35_resp_denominator_error (w0 * w0 * (dt * dt)) (g * dt) θ
+      (by rw [abs_of_pos hθ0]; exact hθ) (mul_nonneg hg hdt.le)
+    have h1 := Complex.norm_le_abs_re_add_abs_im (Dd - De)
+    have hre : (Dd - De).re = (w0 * w0 * (dt * dt) - 2 * (1 - Real.cos θ)) - (w0 * w0 * (dt * dt) - θ ^ 2) := by
+      simp [toC, hDd, hDe]
+    have him : (Dd - De).im = (-(g * dt * Real.sin θ)) - (-(g * dt * θ)) := by
+      simp [toC, hDd, hDe]
+    rw [hre, him] at h1
+    have e : g * dt * |θ| ^ 3 / 6 = θ ^ 4 * (g / ω / 6) := by
+      rw [abs_of_pos hθ0, hθd]; field_simp
+    have := hb.1; have := hb.2
+    calc ‖Dd - De‖ ≤ _ := h1
+      _ ≤ 5 / 48 * θ ^ 4 + g * dt * |θ| ^ 3 / 6 := add_le_add hb.1 hb.2
+      _ = θ ^ 4 * B := by rw [e, hB]; ring
+  have hgap : 0 < ‖d‖ - θ ^ 2 * B := by linarith
+  have hnDd : θ ^ 2 * (‖d‖ - θ ^ 2 * B) ≤ ‖Dd‖ := by
+    have h := norm_sub_norm_le De (De - Dd)
+    have e : De - (De - Dd) = Dd := by ring
+    rw [e, norm_sub_rev De Dd] at h
+    nlinarith
+  have hDd0 : Dd ≠ 0 := by
+    intro h; rw [h, norm_zero] at hnDd
+    have : 0 < θ ^ 2 * (‖d‖ - θ ^ 2 * B) := by positivity
+    linarith
+  have hd0 : 0 < ‖d‖ := by
+    have : 0 ≤ θ ^ 2 * B := by
+      have : 0 ≤ g / ω := div_nonneg hg hω.le
+      rw [hB]; positivity
+    linarith
+  have hDe0 : De ≠ 0 := by
+    intro h; rw [h, norm_zero] at hnDe
+    have : 0 < θ ^ 2 * ‖d‖ := by positivity
+    linarith
+  rw [hχd, hχe]
+  have key : ((K * (dt * dt) : ℝ) : ℂ) / Dd - ((K * (dt * dt) : ℝ) : ℂ) / De
+      = (((K * (dt * dt) : ℝ) : ℂ) / De) * ((De - Dd) / Dd) := by
+    field_simp
+  have hBnn : 0 ≤ θ ^ 2 * B := by
+    have : 0 ≤ g / ω := div_nonneg hg hω.le
+    rw [hB]; positivity
+  have hfrac : ‖(De - Dd) / Dd‖ ≤ θ ^ 2 * B / (‖d‖ - θ ^ 2 * B) := by
+    rw [norm_div, norm_sub_rev De Dd, div_le_div_iff₀ (norm_pos_iff.mpr hDd0) hgap]
+    calc ‖Dd - De‖ * (‖d‖ - θ ^ 2 * B) ≤ θ ^ 4 * B * (‖d‖ - θ ^ 2 * B) :=
+          mul_le_mul_of_nonneg_right hΔ hgap.le
+      _ = θ ^ 2 * B * (θ ^ 2 * (‖d‖ - θ ^ 2 * B)) := by ring
+      _ ≤ θ ^ 2 * B * ‖Dd‖ := mul_le_mul_of_nonneg_left hnDd hBnn
+  rw [key, norm_mul]
+  calc ‖((K * (dt * dt) : ℝ) : ℂ) / De‖ * ‖(De - Dd) / Dd‖
+      ≤ ‖((K * (dt * dt) : ℝ) : ℂ) / De‖ * (θ ^ 2 * B / (‖d‖ - θ ^ 2 * B)) :=
+        mul_le_mul_of_nonneg_left hfrac (norm_nonneg _)
+    _ = θ ^ 2 * B / (‖d‖ - θ ^ 2 * B) * ‖((K * (dt * dt) : ℝ) : ℂ) / De‖ := mul_comm _ _
+
+
+end relative_error
+
 /-! ### one handle for the clauses stated over ℝ / ℂ
 (the axiom audit walks the whole dependency closure per registered name; the real-analysis closure is shared) -/
 theorem C35_analytic_clauses :
     (type_of% @C35_chi_roundtrip_complex) ∧ (type_of% @C35_lorentz) ∧ (type_of% @C35_drude) ∧
     (type_of% @C35_ccpr) ∧ (type_of% @C35_critical_point) ∧ (type_of% @C35_jury_roots_complex) ∧
     (type_of% @C35_no_root_outside) ∧ (type_of% @C35_resp_steady_state) ∧
-    (type_of% @C35_resp_denominator_error) :=
+    (type_of% @C35_resp_denominator_error) ∧ (type_of% @C35_response_relative_error) :=
   ⟨@C35_chi_roundtrip_complex, @C35_lorentz, @C35_drude, @C35_ccpr, @C35_critical_point,
-   @C35_jury_roots_complex, @C35_no_root_outside, @C35_resp_steady_state, @C35_resp_denominator_error⟩
+   @C35_jury_roots_complex, @C35_no_root_outside, @C35_resp_steady_state, @C35_resp_denominator_error,
+   @C35_response_relative_error⟩
 
 /-! ### non-vacuity: the hypotheses are met by concrete non-trivial inputs -/
 section nonvacuity
